@@ -11,6 +11,7 @@ RULE = ("kinds: jtest_linear (quadratic H: exact step matrix M from basis vector
         "control (non-symplectic methods must FAIL the J-test: the monitor can fire); non-trivial = probe executed with a finite defect; "
         "distinct by (kind, method, hamiltonian, layout, route, sign, seed)")
 ASSUMPTIONS = ["finite-difference J-test: delta=1e-5 in longdouble, threshold 1e-8; exact linear J-test threshold 1e4*eps*cond (splitting) / 1e3*solver tolerance (implicit)"]
+RULE += " Strata added in the fourth seeding round: h / -h round trips on explicitly time-dependent separable Hamiltonians."
 FLOORS = {"quick": {"jtest_linear": 24, "jtest_fd": 24, "reverse_probes": 24, "energy_runs": 6, "mask_probes": 36, "controls_fired": 3, "reuse_probes": 20,
                     "reuse_nearby_state_probes": 40, "hard_steps_accepted": 10, "hard_stage_residual_checks": 20, "hard_steps_with_a_failed_stage_iteration_under_user_fn": 4, "reverse_probes_time_dependent": 10},
           "thorough": {"jtest_linear": 60, "jtest_fd": 60, "reverse_probes": 60, "energy_runs": 36, "mask_probes": 240, "controls_fired": 20, "reuse_probes": 150,
